@@ -691,10 +691,22 @@ func CheckFixedPointLiteral(
 			return false
 		}
 
+		// NOTE: the fractional part of the literal is given at the scale it was written with,
+		// e.g. 55 for ".55", but the minimum and maximum fractional parts are given at the scale of the type,
+		// so scale the literal's fractional part to the type's scale before comparing
+		fractional := expression.Fractional
+		if expression.Scale < scale {
+			scaleDiff := new(big.Int).SetUint64(uint64(scale - expression.Scale))
+			fractional = new(big.Int).Mul(
+				fractional,
+				new(big.Int).Exp(big.NewInt(10), scaleDiff, nil),
+			)
+		}
+
 		if !fixedpoint.CheckRange(
 			expression.Negative,
 			expression.UnsignedInteger,
-			expression.Fractional,
+			fractional,
 			minInt,
 			minFractional,
 			maxInt,
